@@ -28,7 +28,8 @@ Values == IF Alphabet = "full" THEN FullValues ELSE RephValues
 
 OptSet == IF Alphabet = "full"
           THEN [vowel : BOOLEAN, chandra : BOOLEAN, kar : BOOLEAN, reph : BOOLEAN, karorder : {FALSE}]
-          ELSE [vowel : BOOLEAN, chandra : BOOLEAN, kar : BOOLEAN, reph : {TRUE}, karorder : {FALSE}]
+          \* C13 quantifies over all other option settings, old vowel-sign order included (a sign may be waiting, hidden)
+          ELSE [vowel : BOOLEAN, chandra : BOOLEAN, kar : BOOLEAN, reph : {TRUE}, karorder : BOOLEAN]
 
 Init == o \in OptSet /\ s = Idle /\ h = <<>>
 
@@ -36,13 +37,14 @@ KeyStep(v) ==
     /\ s' = ImplKey(s, v, o)
     /\ h' = Append(h, [op |-> "key", val |-> v, allow |-> PropKeySet(s.buf, v, o),
                        model |-> IF s'.crash THEN <<"CRASH">> ELSE s'.buf,
-                       norm |-> NormativeKey(s.buf, v)])
+                       \* with old vowel-sign order on only the reph key is normative here (C13); the rest is C14's subject
+                       norm |-> IF o.karorder THEN (v = REPH /\ o.reph) ELSE NormativeKey(s.buf, v)])
 
 BsStep ==
     /\ s.buf # <<>>
     /\ s' = ImplBackspace(s)
     /\ h' = Append(h, [op |-> "bs", val |-> <<>>, allow |-> {PropBackspace(s.buf)}, model |-> s'.buf,
-                       norm |-> TRUE])
+                       norm |-> ~o.karorder])        \* (with old order on a backspace may discard a waiting sign instead: C14)
 
 Next == /\ Len(h) < Depth /\ ~s.crash
         /\ ((\E v \in Values : KeyStep(v)) \/ BsStep)
@@ -51,7 +53,7 @@ Next == /\ Len(h) < Depth /\ ~s.crash
 Spec == Init /\ [][Next]_vars
 
 \* design-level: the transcript of the implementation satisfies C12/C13 at every step
-ImplRefinesProp == h # <<>> => LET e == h[Len(h)] IN ~s.crash /\ e.model \in e.allow
+ImplRefinesProp == h # <<>> => LET e == h[Len(h)] IN ~s.crash /\ (e.norm => e.model \in e.allow)
 
 \* vacuity guard: an orthographic consequence of the rules (old order off)
 AutoVowelInv == o.vowel /\ ~o.reph /\ ~o.chandra =>
